@@ -6,7 +6,9 @@ import (
 	"io"
 	"log"
 	"os"
+	"runtime"
 	"sync"
+	"sync/atomic"
 	"testing"
 	"time"
 
@@ -251,6 +253,24 @@ func judgeOne(x *host, q req, r *fw.Rand) {
 	run.Count("replies_verified", 1)
 }
 
+// jitter is a log writer that makes a PRNG share of the stack's log lines yield the
+// processor (it never sleeps: the logger's mutex is held while it runs).
+type jitter struct {
+	seed uint64
+	n    uint64
+}
+
+func (j *jitter) Write(b []byte) (int, error) {
+	z := (j.seed + atomic.AddUint64(&j.n, 1)) * 0x9E3779B97F4A7C15
+	z ^= z >> 29
+	if z%4 == 0 {
+		for i := uint64(0); i < 20+z>>40%400; i++ {
+			runtime.Gosched()
+		}
+	}
+	return len(b), nil
+}
+
 func child(t *testing.T) {
 	var lo, hi int
 	fmt.Sscan(os.Getenv("VERIF_RANGE"), &lo, &hi)
@@ -336,6 +356,42 @@ func child(t *testing.T) {
 				}
 				run.Count(fmt.Sprintf("burst%d_replies", burst), int64(len(got)))
 			}
+			// (b2) requests injected by several goroutines at the same instant, with the
+			// stack's own log lines turned into pre-emption points (the writer yields the
+			// processor a PRNG number of times): receive path and replier interleave in many
+			// orders. Two to four pending, so every one must be answered by quiescence.
+			log.SetOutput(&jitter{seed: uint64(run.Seed)*1000003 + uint64(k)})
+			for round := 0; round < 12 && run.Violations() < 4; round++ {
+				x.take()
+				n := 2 + r.Intn(3)
+				start := make(chan struct{})
+				var wg sync.WaitGroup
+				for i := 0; i < n; i++ {
+					q := req{V6: r.Chance(1, 4), ID: uint16(0x4000 + k), Seq: uint16(round*8 + i), Len: r.Intn(64), Dst: "own"}
+					wg.Add(1)
+					go func() {
+						defer wg.Done()
+						<-start
+						x.send(q, nil)
+					}()
+				}
+				close(start)
+				wg.Wait()
+				settle()
+				reps, _ := decode(x.take())
+				seen := map[uint16]int{}
+				for _, p := range reps {
+					seen[p.seq]++
+				}
+				for i := 0; i < n; i++ {
+					if c := seen[uint16(round*8+i)]; c != 1 {
+						run.Violation("C13/concurrent/reply-count", fmt.Sprintf("%d echo requests arrived at the same instant on different goroutines (fewer than ten pending): request seq=%d drew %d replies by the time the stack was idle again", n, round*8+i, c), nil)
+						break
+					}
+				}
+				run.Count("concurrent_rounds", 1)
+			}
+			log.SetOutput(io.Discard)
 			// (c) stalled transmit path, queue overflow, then an address is removed: it must not be answered any more
 			if k%4 == 0 {
 				g := make(chan struct{})
